@@ -85,6 +85,8 @@ def apply_mutation(obj, mut, objs):
             obj.qubit = newp[0]
         elif cls in ("GeneralGate", "PhaseFactorGate"):
             obj.prtcl[mut["slot"] % len(obj.prtcl)] = newp[0]          # in-place edit of the particle list
+        elif cls == "PrepareGate":
+            obj.qubits[mut["slot"] % len(obj.qubits)] = newp[0]
         elif cls in ("ISwapGate", "RxxGate", "RyyGate", "RzzGate"):
             if mut["slot"] % 2 == 0:
                 obj.q1 = newp[0]
@@ -120,6 +122,11 @@ def apply_mutation(obj, mut, objs):
     elif kind == "array":
         target = obj if cls == "GeneralGate" else obj.tgate
         target.mat[mut["slot"] % target.mat.shape[0], :] *= 1j                   # stays unitary
+    elif kind == "vec":
+        # overwrite the preparation vector IN PLACE (keeps the constructor's invariant: 1-norm 1)
+        n = len(obj.vec)
+        w = np.array([((mut["slot"] + 3 * i) % 5) - 1.5 for i in range(n)], dtype=float)
+        obj.vec[:] = w / np.sum(np.abs(w))
     elif kind == "ctrl_state":
         obj.ctrl_state[mut["slot"] % len(obj.ctrl_state)] ^= 1                   # in-place edit
     else:
@@ -141,6 +148,8 @@ def possible_mutations(desc):
         return ["rebind", "angle"]
     if k == "phase":
         return ["rebind", "angle"]
+    if k == "prepare":
+        return ["rebind", "vec"]
     if k == "controlled":
         m = ["rebind", "rebind-inner", "ctrl_state"]
         if g["target"]["kind"] == "single" and g["target"]["args"]:
@@ -261,6 +270,8 @@ def views(circ):
             yield from classes(g.tgate)
         for t in getattr(g, "tgates", []):
             yield from classes(t)
+    if any(c == "PrepareGate" for g in circ.gates for c in classes(g)):
+        return None          # documented exception: the network of a preparation gate is the rank-one map |x><0...0|, not its matrix
     res = {"wrap2": sorted({c for g in circ.gates for c in classes(g) if c in WRAP2})}
     try:
         fl = circ.fields()
@@ -554,7 +565,7 @@ def sim_oracle(case, o):
 # (model: circuitNet / tnRun of QibModel/CircuitNet.lean, driver drv_circuitnet; Lean: Properties/C05Net.lean)
 # ---------------------------------------------------------------------------------------------
 
-NET_LIMIT = {"quick": 60000, "thorough": 400000}
+NET_LIMIT = {"quick": 60000, "thorough": 150000}
 _net_tier = ["quick"]
 FIXED_REFS = {"PauliX": 1, "ctrl_cross_neg": 2, "ctrl_cross_pos": 3, "|0>_2": 4}
 
@@ -846,7 +857,7 @@ def gen_net_cases(tier, rng):
     two-qubit wraps of the known finding are kept in about one circuit out of 12 only (every circuit containing one is refused)"""
     for c in _net_fixed_cases():
         yield c
-    n = 700 if tier == "thorough" else 150
+    n = 450 if tier == "thorough" else 150
     for i in range(n):
         nf = rng.choice([1, 1, 2, 3])
         nmax = 5 if i % 12 == 0 else 4
